@@ -745,6 +745,59 @@ def work_trapjump(shard):
 
 
 # ---------------------------------------------------------------------------
+# ON n GOTO / GOSUB with a selector that is not a whole number: rounded to the nearest whole number (halves away from
+# zero) in the precision it has
+
+ON_SELECTORS = ['1', '1.4', '1.5', '2.5', '.5', '.4', '3.4', '3.5', '255.4', '255.5', '-.4', '-.5', '2.5#', '1.49999999#',
+                '2.4999999999#', '.49999999999#', '-.49999999999#', '255.49999999#', 'A#', 'B!', 'C#-1D-10']
+ON_VARS = 'A#=2.4999999999#:B!=1.5:C#=2.5#'
+
+
+def _on_expected(sel):
+    import math
+    from fractions import Fraction
+    text = {'A#': '2.4999999999', 'B!': '1.5', 'C#-1D-10': '2.4999999999'}.get(sel, sel.rstrip('#'))
+    v = Fraction(text)
+    n = int(math.floor(abs(v) + Fraction(1, 2))) * (-1 if v < 0 else 1)
+    if n < 0 or n > 255:
+        return 'E5'
+    return {1: 'a', 2: 'b', 3: 'c'}.get(n, 'f')
+
+
+def work_onselector(shard):
+    part = Partial()
+    for sel, kind in shard:
+        s = H.new_session(horizon=400)
+        try:
+            case = {'selector': sel, 'kind': kind}
+            lines = ['10 ON ERROR GOTO 900', '20 ' + ON_VARS, '30 ON %s %s 100,200,300' % (sel, kind), '40 PRINT "f";', '50 END',
+                     '100 PRINT "a";:%s' % ('RETURN 50' if kind == 'GOSUB' else 'END'),
+                     '200 PRINT "b";:%s' % ('RETURN 50' if kind == 'GOSUB' else 'END'),
+                     '300 PRINT "c";:%s' % ('RETURN 50' if kind == 'GOSUB' else 'END'),
+                     '900 PRINT "E";ERR;:END']
+            for l in lines:
+                r = H.run(s, l.encode('ascii'))
+                if r.exc is not None or r.out.strip():
+                    raise CheckError('line not accepted: %r -> %r' % (l, r))
+            r = H.run(s, b'RUN')
+            part.n += 1
+            part.traces += 1
+            if r.exc is not None:
+                part.violation('on-selector/host-exception/%s' % H.exc_key(r.exc), 'ON %s %s: %r' % (sel, kind, r.exc), case)
+                continue
+            got = r.out.decode('latin-1').replace(' ', '').strip()
+            want = _on_expected(sel)
+            if got != want:
+                part.violation('on-selector/wrong-target/%s' % ('double' if '#' in sel else 'single'),
+                               'ON %s %s 100,200,300 printed %r, expected %r' % (sel, kind, got, want), case)
+            part.classes.add('on-selector/%s/%s' % (kind, want))
+        finally:
+            s.close()
+    part.sample({'selector': shard[0][0]})
+    return part
+
+
+# ---------------------------------------------------------------------------
 # loops that start (or lie entirely) in a THEN or ELSE branch of an IF line, inside and outside an outer loop whose
 # own search for its NEXT / WEND passes over them
 
@@ -939,6 +992,10 @@ def _legs_programs(ctx):
                    bound='all %d programs: %d-statement sequences over %d main-line statements (GOSUB / ON GOSUB / GOTO / '
                          'IF THEN to existing and missing lines, stray RETURN) x %d subroutine bodies under ON ERROR '
                          'GOTO with RESUME NEXT or one retry' % (len(tj), 2 if ctx.quick else 3, len(TJ_MAIN), len(TJ_SUB))))
+    osel = [(sel, kind) for sel in ON_SELECTORS for kind in ('GOTO', 'GOSUB')]
+    out.append(Leg('on-selector', list(chunked(osel, 6)), work_onselector, exhaustive=True,
+                   bound='%d selectors that are not whole numbers (singles, doubles closer to a half than a single can tell, variables, '
+                         'an expression; below 0 and above 255) x ON GOTO / ON GOSUB with three targets' % len(ON_SELECTORS)))
     bl = branchloop_cases()
     out.append(Leg('branch-loops', list(chunked(bl, 40)), work_branchloops, exhaustive=True,
                    bound='all %d programs: an IF line whose THEN / ELSE branch holds a PRINT, a complete FOR or WHILE loop, or only '
@@ -971,6 +1028,8 @@ def replay(ctx, leg, case):
             cs = (sig, int(Fr(a)), int(Fr(b)), None if s is None else int(Fr(s)), shape)
         lines = forparam_lines(cs, case['variant'])
         judge(part, runner, lines, case, lambda oc, rs: _key('forparam', _culprit(['replay'], oc, rs)))
+    elif leg == 'on-selector':
+        return work_onselector([(case['selector'], case['kind'])])
     elif leg == 'branch-loops':
         part = work_branchloops([case['branchloop']])
         part.viol = [v for v in part.viol if v[2].get('layout') == case.get('layout')]
